@@ -22,12 +22,34 @@ type scaleKind struct {
 	name  string
 	axis  string // "width", "depth", "length"
 	build func(g *Gen, n int, lf func(i int) *LNode) *LNode
+	post  func(c *Case, n int) // optional: additions to the line outside the command document
 }
+
+// number literals that do not survive a round trip through a float64 (or through an int64), and ordinary ones
+var hardNumbers = []string{"0.25", "9007199254740993", "1.50", "1E2", "-0.0", "18446744073709551615", "3", "-3.6e-05", "1e400", "0.1000000000000000055511151231257827", "7469113720208097282", "1.0"}
 
 // scale leaves: like the ordinary leaf kinds, but unique for any number of them in one line
 func (g *Gen) scNum() *LNode {
 	g.nsec++
 	lit := fmt.Sprintf("-48151623%07d.5", g.nsec)
+	return g.secret(LN(lit), ClsNum, lit)
+}
+
+// scHardNum: a sensitive number whose literal does not survive a float64 round trip (trailing zero, exponent form,
+// integer beyond 2^53, negative fraction with trailing zero), unique per call
+func (g *Gen) scHardNum() *LNode {
+	g.nsec++
+	var lit string
+	switch g.nsec % 4 {
+	case 0:
+		lit = fmt.Sprintf("1%06d.50", g.nsec)
+	case 1:
+		lit = fmt.Sprintf("90071992548%06d", g.nsec)
+	case 2:
+		lit = fmt.Sprintf("1%06dE2", g.nsec)
+	default:
+		lit = fmt.Sprintf("-0.%06d0", g.nsec)
+	}
 	return g.secret(LN(lit), ClsNum, lit)
 }
 func (g *Gen) scDate() *LNode {
@@ -92,7 +114,12 @@ func (g *Gen) scaleLeafFn(variant int) func(i int) *LNode {
 			}
 		}
 	default:
-		return func(i int) *LNode { return g.scNum() }
+		return func(i int) *LNode {
+			if i%2 == 1 {
+				return g.scHardNum()
+			}
+			return g.scNum()
+		}
 	}
 }
 
@@ -128,13 +155,13 @@ var scaleKinds []scaleKind
 
 func init() {
 	W := func(name string, b func(g *Gen, n int, lf func(i int) *LNode) *LNode) {
-		scaleKinds = append(scaleKinds, scaleKind{name, "width", b})
+		scaleKinds = append(scaleKinds, scaleKind{name, "width", b, nil})
 	}
 	D := func(name string, b func(g *Gen, n int, lf func(i int) *LNode) *LNode) {
-		scaleKinds = append(scaleKinds, scaleKind{name, "depth", b})
+		scaleKinds = append(scaleKinds, scaleKind{name, "depth", b, nil})
 	}
 	L := func(name string, b func(g *Gen, n int, lf func(i int) *LNode) *LNode) {
-		scaleKinds = append(scaleKinds, scaleKind{name, "length", b})
+		scaleKinds = append(scaleKinds, scaleKind{name, "length", b, nil})
 	}
 	listed := func(g *Gen, f func() *LNode) *LNode { return g.ctx(true, f) }
 
@@ -235,6 +262,29 @@ func init() {
 			d.Add(g.fld(i), lf(i))
 		}
 		return g.tail(LO("insert", g.coll(), "documents", LA(listed(g, func() *LNode { return d }))))
+	})
+
+	// numeric lists outside the zones (metrics, samples) and in a search stage (a query vector): KEEP literals
+	scaleKinds = append(scaleKinds, scaleKind{"envelope.numeric-array", "width", func(g *Gen, n int, lf func(int) *LNode) *LNode {
+		return g.find(listed(g, func() *LNode { return LO(g.FN(), g.sec()) }))
+	}, func(c *Case, n int) {
+		arr := LA()
+		for i := 0; i < n; i++ {
+			arr.Kids = append(arr.Kids, LN(hardNumbers[i%len(hardNumbers)]).Keep())
+		}
+		c.Attr.Add("samples", arr.Keep())
+		nested := LA()
+		for i := 0; i < n; i++ {
+			nested.Kids = append(nested.Kids, LA(LN(hardNumbers[(i+3)%len(hardNumbers)]).Keep(), LN("1").Keep()).Keep())
+		}
+		c.Attr.Add("histogram", LO("buckets", nested.Keep()).Keep())
+	}})
+	W("pipeline.$vectorSearch.queryVector", func(g *Gen, n int, lf func(int) *LNode) *LNode {
+		v := LA()
+		for i := 0; i < n; i++ {
+			v.Kids = append(v.Kids, g.scHardNum())
+		}
+		return g.agg(LO("$vectorSearch", LO("index", LS("vidx").Keep(), "path", LS("emb").DC(), "queryVector", v, "numCandidates", LN("150").Keep(), "limit", LN("10").Keep())))
 	})
 
 	// ---- depths: every level holds a secret of its own next to the inner level
@@ -430,6 +480,9 @@ func genScaleCase(x *X, o GenOpts) *Case {
 		}
 	}
 	c := g.buildCase(0, cmd, 0, 0)
+	if k.post != nil {
+		k.post(c, n)
+	}
 	c.SlotName = "scale:" + k.name
 	return c
 }
